@@ -368,7 +368,14 @@ def rflag_success_flag_matches_json(ctx):
     response_flag_matches_json(ctx, "C08.FLAG")
 
 
-RULES = [r1_size_provenance, r2_bounded_writer, r3_batch, r4_oversize_reply, r5_unbounded_constructor_gets_fixed_errors, rsib_entry_points_agree, rcfg_config_verbatim, rflag_success_flag_matches_json]
+
+def rin_inbound_limits_from_request_limit(ctx):
+    """what the WebSocket side may receive is bounded by max_request_body_size only"""
+    from .common import soketto_inbound_limits
+    soketto_inbound_limits(ctx, "C08.INBOUND")
+
+
+RULES = [r1_size_provenance, r2_bounded_writer, r3_batch, r4_oversize_reply, r5_unbounded_constructor_gets_fixed_errors, rsib_entry_points_agree, rcfg_config_verbatim, rflag_success_flag_matches_json, rin_inbound_limits_from_request_limit]
 
 LEVEL_TEXT = (
     "Structural necessary conditions decided exactly from the type-checked program: provenance of every response-size "
